@@ -264,7 +264,7 @@ func (c *checker) run() int {
 		go func() {
 			defer wg.Done()
 			for i := range ch {
-				results[i] = w.RunJob(jobs[i].spec, exec.JobOpts{Solver: c.solver, TimeoutMS: 60000, MaxVisits: jobs[i].h.MaxVisits, Eager: (jobs[i].h.Eager || os.Getenv("SYMGO_EAGER") == "1") && os.Getenv("SYMGO_EAGER") != "0"})
+				results[i] = w.RunJob(jobs[i].spec, exec.JobOpts{Solver: c.solver, TimeoutMS: 60000, WallSecs: wallSecs(c.tier), MaxVisits: jobs[i].h.MaxVisits, Eager: (jobs[i].h.Eager || os.Getenv("SYMGO_EAGER") == "1") && os.Getenv("SYMGO_EAGER") != "0"})
 			}
 		}()
 	}
@@ -732,4 +732,13 @@ func cmdReplay(args []string) int {
 	}
 	fmt.Println("replay passes on this tree")
 	return 0
+}
+
+// wallSecs is the wall-clock limit of one job: a job that exceeds it makes the check
+// INCONCLUSIVE (it can only happen on a changed tree or with a bound that is too large).
+func wallSecs(tier string) int {
+	if tier == "thorough" {
+		return 3600
+	}
+	return 900
 }
